@@ -171,6 +171,8 @@ def lean_type(t):
         return 'Option ' + (f'({inner})' if ' ' in inner else inner)
     if t.startswith('Result:'):
         return 'PyResult ' + lean_type(t[7:])
+    if t.startswith('Tuple:'):
+        return t[6:]
     return LEAN_TYPE.get(t, t)
 
 
@@ -262,6 +264,11 @@ SER_LINE = {"getattr(value, 'params', Parameters())": ('expr', 'params_of', ['va
             'isinstance(value, bytes)': ('expr', 'is_bytes', ['value'], 'Bool'),
             "types_factory['inline'](value)": ('expr', 'inline_of', ['value'], 'IV'),
             'Contentline.from_parts': ('pfun', 'from_parts', ['Str', 'P', 'IV'], 'Str', {'sorted': 'Bool'})}
+SE_GET_EVENT = {'self.DTSTART': ('pexpr', 'dtstart', [], 'OptD'), 'self.DTEND': ('pexpr', 'dtend', [], 'OptD'),
+                'self.DURATION': ('pexpr', 'duration_prop', [], 'OptTDS')}
+SE_GET_TODO = {'self.DTSTART': ('pexpr', 'dtstart', [], 'OptD'), 'self.DUE': ('pexpr', 'due', [], 'OptD'),
+               'self.DURATION': ('pexpr', 'duration_prop', [], 'OptTDS')}
+SE_SUB = {'datetime.__sub__': ('pfun', 'dt_sub', ['D', 'D'], 'TDS')}
 TARGETS = [
     Target('prop.py', 'vDuration', 'to_ical', 'vDuration_to_ical', None, {'td': ('td', 'TD')}, {}, False),
     Target('prop.py', 'vUTCOffset', 'to_ical', 'vUTCOffset_to_ical', None, {'td': ('td', 'TD')}, {}, False),
@@ -399,6 +406,18 @@ TARGETS = [
            None, None, 'OptD'),
     Target('cal.py', 'Todo', 'end', 'Todo_end', None, {}, {'self._get_start_end_duration': ('tuple', SED)}, False, 'se',
            None, None, 'OptD'),
+    # wave 5: the checks themselves.  The getters `self.DTSTART` / `self.DTEND` / `self.DUE` / `self.DURATION` (descriptors
+    # that may raise InvalidCalendar) are parameters: computations that give a value or raise; `end - start` of two
+    # date / datetime objects (it depends on the tzinfo objects) is a parameter.  `.start`, `.duration` and a second
+    # translation of `.end` (`Event_end_full`, ..) call the translated checks
+    Target('cal.py', 'Event', '_get_start_end_duration', 'Event_get_start_end_duration', None, {}, SE_GET_EVENT, False, 'se'),
+    Target('cal.py', 'Todo', '_get_start_end_duration', 'Todo_get_start_end_duration', None, {}, SE_GET_TODO, False, 'se'),
+    Target('cal.py', 'Event', 'start', 'Event_start', None, {}, SE_GET_EVENT, False, 'se', None, None, 'D'),
+    Target('cal.py', 'Todo', 'start', 'Todo_start', None, {}, SE_GET_TODO, False, 'se', None, None, 'D'),
+    Target('cal.py', 'Event', 'end', 'Event_end_full', None, {}, SE_GET_EVENT, False, 'se', None, None, 'OptD'),
+    Target('cal.py', 'Todo', 'end', 'Todo_end_full', None, {}, SE_GET_TODO, False, 'se', None, None, 'OptD'),
+    Target('cal.py', 'Event', 'duration', 'Event_duration', None, {}, dict(SE_GET_EVENT, **SE_SUB), False, 'se', None, None, 'TDS'),
+    Target('cal.py', 'Todo', 'duration', 'Todo_duration', None, {}, dict(SE_GET_TODO, **SE_SUB), False, 'se', None, None, 'TDS'),
 ] + [   # ---- CaselessDict (C17): the delegating methods; `to_unicode` is a function parameter
     Target('caselessdict.py', 'CaselessDict', m, 'cd_' + m.strip('_'), 'Store', {},
            {'to_unicode': ('fun', 'to_unicode', ['Str'], 'Str'),
@@ -421,7 +440,7 @@ TARGETS = [
 V = namedtuple('V', 'lean type lits elts', defaults=(None,))
 Tail = namedtuple('Tail', 'names make')        # what a block continues with when its statements run out
 ALIAS = 'alias'     # V.elts of a variable that is `xs[-1] if xs else None`: (ALIAS, the list's name)
-Done = namedtuple('Done', 'lean params rtype monadic nargs objself func argtypes fields', defaults=(False, 0, False, None, None, None))  # a translated function
+Done = namedtuple('Done', 'lean params rtype monadic nargs objself func argtypes fields elts', defaults=(False, 0, False, None, None, None, None))  # a translated function
 SUBVALUE = {'LocalTimezoneMissing': 'localTimezoneMissing', 'ComponentStartMissing': 'componentStartMissing',
             'ComponentEndMissing': 'componentEndMissing', 'InvalidCalendar': 'invalidCalendar',
             'IncompleteComponent': 'incompleteComponent'}       # ValueError subclasses of icalendar
@@ -669,8 +688,48 @@ class Fn:
             return 'true'       # a date / datetime object is never false
         self.fail(node, f'truthiness of a value of type {v.type}')
 
+    def presence(self, v, env):
+        """`x is not None` / `isinstance(x, date | datetime)` on a variable that holds an optional date / timedelta and
+        is not yet known to be present: (variable, the test on the object or None)"""
+        if isinstance(v, ast.Compare) and len(v.ops) == 1 and isinstance(v.ops[0], ast.IsNot) and isinstance(v.left, ast.Name) \
+                and isinstance(v.comparators[0], ast.Constant) and v.comparators[0].value is None and v.left.id in env:
+            x = env[v.left.id]
+            if x.type in ('OptD', 'OptTDS') and x.lean not in self.narrow and re.fullmatch(r"[A-Za-z_][\w']*", x.lean):
+                return x, None
+        if isinstance(v, ast.Call) and isinstance(v.func, ast.Name) and v.func.id == 'isinstance' and 'isinstance' not in self.modnames \
+                and len(v.args) == 2 and not v.keywords and isinstance(v.args[0], ast.Name) and v.args[0].id in env \
+                and isinstance(v.args[1], ast.Name) and v.args[1].id in ('date', 'datetime') \
+                and self.modnames.get(v.args[1].id) == 'datetime.' + v.args[1].id:
+            x = env[v.args[0].id]
+            if x.type == 'OptD' and x.lean not in self.narrow and re.fullmatch(r"[A-Za-z_][\w']*", x.lean):
+                return x, 'is' + v.args[1].id
+        return None
+
+    def and_chain(self, values, env):
+        if not values:
+            return 'true'
+        p = self.presence(values[0], env) if len(values) > 1 else None
+        if p is None:
+            a = self.test(values[0], env)
+            if len(values) == 1:
+                return a
+            return f'({a} && {self.lazily(self.and_chain, values[1:], env)})'
+        x, what = p
+        self.fresh += 1
+        v = f"n{self.fresh}'"
+        old = dict(self.narrow)
+        self.narrow[x.lean] = V(v, {'OptD': 'D', 'OptTDS': 'TDS'}[x.type], None)
+        try:
+            rest = self.lazily(self.and_chain, values[1:], env)
+        finally:
+            self.narrow = old
+        here = '' if what is None else OBJ[self.t.group][what].format(x=v) + ' && '
+        return f'(match {x.lean} with | none => false | some {v} => ({here}{rest}))'
+
     def test(self, node, env):
         """an expression in a boolean context -> Lean Bool term"""
+        if isinstance(node, ast.BoolOp) and isinstance(node.op, ast.And) and any(self.presence(v, env) for v in node.values[:-1]):
+            return self.and_chain(list(node.values), env)
         if isinstance(node, ast.BoolOp):
             op = ' && ' if isinstance(node.op, ast.And) else ' || '
             first, env2 = node.values[0], env
@@ -713,7 +772,8 @@ class Fn:
             if any(a.type.startswith('Opt:') for a in args):
                 self.fail(node, f'`{ast.unparse(node)[:50]}` on a value that may be None')
             rt = lean_type(whole[3])
-            f = self.param(whole[1], ' → '.join(lean_type(a.type) for a in args) + ' → ' + (f'Py {rt}' if whole[0] == 'pexpr' else rt))
+            rt = f'({rt})' if ' ' in rt and whole[0] == 'pexpr' else rt
+            f = self.param(whole[1], ' → '.join([lean_type(a.type) for a in args] + [f'Py {rt}' if whole[0] == 'pexpr' else rt]))
             lean = ' '.join([f.lean] + [a.lean for a in args])
             return self.hoist(node, lean, whole[3]) if whole[0] == 'pexpr' else V(f'({lean})', whole[3], None)
         f = getattr(self, 'e_' + type(node).__name__, None)
@@ -750,6 +810,8 @@ class Fn:
             f = self.param(e[1], f'Comp → Str → Py {lean_type(e[2])}')     # CaselessDict.__getitem__: external, may raise
             return self.hoist(node, f"{f.lean} (Comp.mk name' props' subs') {k.lean}", e[2])
         v, sl = self.expr(node.value, env), node.slice
+        if v.type == 'Tuple' and isinstance(sl, ast.Constant) and type(sl.value) is int and 0 <= sl.value < len(v.elts):
+            return v.elts[sl.value]     # a component of a tuple display
         if v.type.startswith('List:') and not isinstance(sl, ast.Slice) and ast.unparse(sl) in ('-1', '0'):
             return self.hoist(node, f'{"listLast" if ast.unparse(sl) == "-1" else "listHead"} {v.lean}', v.type[5:])
         lit = lambda b: b is None or (isinstance(b, ast.Constant) and type(b.value) is int and b.value >= 0)  # noqa: E731
@@ -891,6 +953,13 @@ class Fn:
             return V(f'({a.lean} ++ {b.lean})', a.type, None)
         if k == 'Add' and ts in (('Str', 'Str'), ('Bytes', 'Bytes')):
             return V(f'({a.lean} ++ {b.lean})', a.type, None)
+        if k == 'Sub' and set(ts) <= {'D', 'OptD'} and 'datetime.__sub__' in self.t.externals:
+            # the difference of two date / datetime objects is external (it depends on their tzinfo objects) and may
+            # raise; None as an operand is a TypeError
+            e = self.t.externals['datetime.__sub__']
+            a, b = (self.none_is_error(node, x) if x.type == 'OptD' else x for x in (a, b))
+            f = self.param(e[1], f'{lean_type("D")} → {lean_type("D")} → Py {lean_type(e[3])}')
+            return self.hoist(node, f'{f.lean} {a.lean} {b.lean}', e[3])
         if k == 'Sub' and ts == ('TD', 'TD'):
             return V(f'(TD.sub {a.lean} {b.lean})', 'TD', None)
         if k == 'Mod' and a.type == 'Str' and b.type in ('Str', 'Int'):
@@ -1265,6 +1334,9 @@ class Fn:
             x = self.expr(node.args[0], env)
             if x.type == 'D':       # a datetime IS a date (subclass); the value type tells which one it is
                 return V(OBJ[self.t.group]['is' + node.args[1].id].format(x=x.lean), 'Bool', None)
+            if x.type == 'OptD':    # None is neither
+                t = OBJ[self.t.group]['is' + node.args[1].id].format(x="d'")
+                return V(f"(match {x.lean} with | none => false | some d' => {t})", 'Bool', None)
         if isinstance(fn, ast.Attribute) and isinstance(fn.value, ast.Name) and fn.value.id == 'self' \
                 and (self.t.cls, fn.attr) in self.registry and not self.is_property(fn.attr) and not node.keywords:
             d = self.registry[(self.t.cls, fn.attr)]       # a method of the class, translated earlier
@@ -1294,6 +1366,15 @@ class Fn:
                 else:
                     rest.append(self.param(*p).lean)
             lean = ' '.join([d.lean] + [a.lean for a in args] + rest)
+            if d.rtype.startswith('Tuple:') and d.elts:      # a translated method that returns a tuple display: its components
+                if d.monadic:
+                    r = self.hoist(node, lean, d.rtype)
+                else:
+                    self.fresh += 1
+                    r = V(f"t{self.fresh}'", d.rtype, None)
+                    self.pre.append(f"let {r.lean} : {lean_type(d.rtype)} := {lean}")
+                n = len(d.elts)
+                return V('', 'Tuple', None, [V(r.lean + '.2' * i + ('.1' if i < n - 1 else ''), ty, None) for i, ty in enumerate(d.elts)])
             return self.hoist(node, lean, d.rtype) if d.monadic else V(f'({lean})', d.rtype, None)
         ext = self.t.externals.get(callee)
         if ext is not None and ext[0] in ('proc', 'pfun') and (not isinstance(fn, ast.Name) or fn.id not in env):
@@ -1547,7 +1628,13 @@ class Fn:
                 self.fail(s, 'bare return')
             # statements after a `return` never run (they are there when the rest of the function was appended to
             # a branch that already returned): dropped
-            v = self.expr(s.value, env)
+            if isinstance(s.value, ast.Tuple) and any(isinstance(e, ast.Name) and e.id in env and env[e.id].lean in self.narrow
+                                                      for e in s.value.elts):
+                # a variable known to hold an object here is returned as the optional value it is (one type on every path)
+                v = V('', 'Tuple', None, [env[e.id] if isinstance(e, ast.Name) and e.id in env and env[e.id].lean in self.narrow
+                                          else self.expr(e, env) for e in s.value.elts])
+            else:
+                v = self.expr(s.value, env)
             if (self.t.ret or '').startswith('Result:'):
                 rt = self.t.ret[7:]
                 if v.type == rt:
@@ -1555,6 +1642,7 @@ class Fn:
                 elif v.type == 'List:' + rt:
                     v = V(f'(PyResult.many {v.lean})', self.t.ret, None)
             if v.type == 'Tuple' and all(e.type != 'Tuple' for e in v.elts):       # a tuple display of values
+                self.rtype_elts = [e.type for e in v.elts]
                 self.rtype_lean = ' × '.join(lean_type(e.type) for e in v.elts)
                 v = V('(' + ', '.join(e.lean for e in v.elts) + ')', 'Tuple:' + self.rtype_lean, None)
             elif v.type not in ('Str', 'Bytes', 'Int', 'Bool', 'TD', 'PyDate', 'PyTime', 'PyDateTime', 'StrList', 'D', 'OptD', 'DList', 'ATList', 'CompList', 'ItemList', 'StepOut') \
@@ -1933,16 +2021,25 @@ class Fn:
                 self.narrow = old
             do = ' do' if self.monadic else ''
             return pre + [f'match {x.lean} with', f'| none =>{do}'] + ind(nb) + [f'| some {v} =>{do}'] + ind(sb)
-        if isinstance(s.test, ast.BoolOp) and isinstance(s.test.op, ast.And) and len(s.test.values) == 2:
+        if isinstance(s.test, ast.BoolOp) and isinstance(s.test.op, ast.And) and len(s.test.values) >= 2:
             saved = (self.fresh, list(self.used), list(self.pre))
             try:
-                if self.narrowing(s.test.values[0], env) is not None or self.narrowing(s.test.values[1], env) is not None:
+                if len(s.test.values) == 2 and (self.narrowing(s.test.values[0], env) is not None or self.narrowing(s.test.values[1], env) is not None):
                     raise LazyPartial('a test for None guards the second operand')
                 c = self.lazy_probe(s.test, env)
             except LazyPartial:     # `if A and B:` with B able to raise: Python evaluates B only when A is true
                 self.fresh, self.used, self.pre = saved[0], saved[1], saved[2]
-                inner = ast.If(test=s.test.values[1], body=s.body, orelse=s.orelse)
-                outer = ast.If(test=s.test.values[0], body=[inner], orelse=s.orelse)
+                vals = []
+                for v in s.test.values:     # `isinstance(x, datetime)` on an optional says first that x is an object
+                    p = self.presence(v, env)
+                    if p is not None and p[1] is not None:
+                        vals.append(ast.copy_location(ast.Compare(left=ast.Name(id=v.args[0].id, ctx=ast.Load()), ops=[ast.IsNot()],
+                                                                  comparators=[ast.Constant(value=None)]), v))
+                    vals.append(v)
+                second = vals[1] if len(vals) == 2 else ast.copy_location(ast.BoolOp(op=ast.And(), values=vals[1:]), s.test)
+                ast.fix_missing_locations(second)
+                inner = ast.If(test=second, body=s.body, orelse=s.orelse)
+                outer = ast.If(test=vals[0], body=[inner], orelse=s.orelse)
                 for n in (inner, outer):
                     ast.copy_location(n, s)
                     n.end_lineno = s.end_lineno
@@ -2415,8 +2512,7 @@ class Fn:
         lean = ' '.join([d.lean] + [a.lean for a in args] + actual)
         types = [ct.self_attrs[f][1] for f in d.fields]
         if d.monadic:
-            r = self.hoist(node, lean, 'Tuple:fields')
-            self.pre[-1] = self.pre[-1].replace(': Tuple:fields ←', ': ' + ' × '.join(lean_type(x) for x in types) + ' ←')
+            r = self.hoist(node, lean, 'Tuple:' + ' × '.join(lean_type(x) for x in types))
             lines = self.take_pre()
         else:
             self.fresh += 1
@@ -2509,8 +2605,8 @@ HEADERS['se'] = ['/- GENERATED by tools/py2lean.py (called from tools/extract.py
                  '   tools.is_date. Do not edit: regenerated on every run; lean/ICal/Lemmas/BodiesSE.lean proves each equal to the',
                  '   hand-written model (ICal/Model/StartEnd.lean).  Value objects are the model\'s `SE.Val` (written `Trig` below),',
                  '   a timedelta is its Int of seconds; a test for None on an optional value is a `match`. -/',
-                 'import ICal.Model.PyRT', 'import ICal.Model.StartEnd', 'set_option linter.unusedVariables false',
-                 'namespace ICal.Gen.BodiesSE', 'open ICal ICal.PyRT', 'abbrev Trig := SE.Val', '']
+                 'import ICal.Model.PyRTSE', 'set_option linter.unusedVariables false',
+                 'namespace ICal.Gen.BodiesSE', 'open ICal ICal.PyRT ICal.PyRT.SEOps', 'abbrev Trig := SE.Val', '']
 NAMESPACE['cdict'] = 'ICal.Gen.BodiesCDict'
 HEADERS['cdict'] = ['/- GENERATED by tools/py2lean.py (called from tools/extract.py) from the delegating methods of CaselessDict in',
                     '   src/icalendar/caselessdict.py. Do not edit: regenerated on every run; lean/ICal/Lemmas/BodiesCDict.lean proves',
@@ -2582,7 +2678,7 @@ def translate(src_dir, group='enc'):
                     f'   {comment_safe(str(e))} -/', '']
             continue
         registry[(t.cls, t.fn)] = Done(t.lean, list(fn.used), fn.rtype, fn.monadic, fn.nargs, fn.objself, func,
-                                       [v for v in (t.args or {}).values()], getattr(fn, 'fields', None))
+                                       [v for v in (t.args or {}).values()], getattr(fn, 'fields', None), getattr(fn, 'rtype_elts', None))
         src_of = {p: (a if a.split('.')[0] in (t.args or {}) else f'self.{a}') for a, (p, _) in t.self_attrs.items()}
         src_of.update({lname(a): f'argument {a}' for a in (t.args or {})})
         for f, e in t.externals.items():
